@@ -596,7 +596,7 @@ fn t_connect_fresh() {
     assert!(matches!(r, Poll::Ready(Ok(()))), "C07.connect.ok");
     core::mem::forget(r);
     let seen = next_seen(&mut w.tx_msg_rx);
-    assert!(seen.op == 1 && seen.id == A && seen.len == 9 && seen.arg == rwnd, "C03.connect.ack_window: the Acknowledge advertises exactly the own receive window");
+    assert!(seen.op == 1 && seen.id == A && seen.len == 9 && seen.arg == rwnd, "C03+C04.connect.ack_window: the Acknowledge advertises exactly the own receive window (the window the inbound queue can hold: a larger one lets a burst overrun the queue, the stream is reset although its reader keeps reading)");
     assert!(out_empty(&mut w.tx_msg_rx), "C07.connect.single");
     let got = w.con_rx.try_recv();
     match &got {
